@@ -289,6 +289,11 @@ func (c *TermCtx) Eq(a, b *Term) *Term {
 	if r := c.distCmp("=", a, b); r != nil {
 		return r
 	}
+	if a.K == KBV {
+		if r := c.tableCmp("=", a, b); r != nil {
+			return r
+		}
+	}
 	if a.id > b.id {
 		a, b = b, a
 	}
@@ -499,6 +504,9 @@ func (c *TermCtx) BVCmp(op string, a, b *Term) *Term {
 	if r := c.distCmp(op, a, b); r != nil {
 		return r
 	}
+	if r := c.tableCmp(op, a, b); r != nil {
+		return r
+	}
 	// borrow/carry idioms: (a-b) <=u a  ⇔  b <=u a ;  (a+b) <u a  ⇔  b >u ~a
 	switch op {
 	case "bvule", "bvugt":
@@ -600,6 +608,49 @@ func (c *TermCtx) Concat(hi, lo *Term) *Term {
 // Table returns lookup(table, idx): the byte of the constant table at a symbolic index.
 // The table becomes a define-fun over (_ BitVec 8) in the solver prelude.
 func (c *TermCtx) Table(table string, idx *Term) *Term {
+	// compose nested constant tables: T2[T1[i]] = T3[i]
+	if idx.Op == "table" && idx.W == 8 {
+		inner := c.tables[idx.P0]
+		comp := make([]byte, 256)
+		for i := 0; i < 256; i++ {
+			var v byte
+			if i < len(inner) {
+				v = inner[i]
+			}
+			if int(v) < len(table) {
+				comp[i] = table[v]
+			}
+		}
+		return c.Table(string(comp), idx.Args[0])
+	}
+	if !idx.IsConst() {
+		// range-based simplification: identity or constant on the feasible index range
+		m := c.rangeMax(idx)
+		if m > 255 {
+			m = 255
+		}
+		ident, constant := true, true
+		at := func(i uint64) byte {
+			if int(i) < len(table) {
+				return table[i]
+			}
+			return 0
+		}
+		for i := uint64(0); i <= m; i++ {
+			if uint64(at(i)) != i {
+				ident = false
+			}
+			if at(i) != at(0) {
+				constant = false
+			}
+		}
+		if ident && idx.W == 8 {
+			return idx
+		}
+		if constant {
+			return c.BVConst(8, uint64(at(0)))
+		}
+	}
 	id, ok := c.tableID[table]
 	if !ok {
 		id = len(c.tables)
@@ -613,6 +664,105 @@ func (c *TermCtx) Table(table string, idx *Term) *Term {
 		return c.BVConst(8, 0)
 	}
 	return c.mk("table", KBV, 8, id, 0, idx)
+}
+
+// rangeMax is a cheap upper bound of the unsigned value of a BV term.
+func (c *TermCtx) rangeMax(t *Term) uint64 {
+	switch t.Op {
+	case "const":
+		return t.CU
+	case "bvlshr":
+		if t.Args[1].IsConst() && t.Args[1].CU < 64 {
+			return c.rangeMax(t.Args[0]) >> t.Args[1].CU
+		}
+	case "bvand":
+		a, b := c.rangeMax(t.Args[0]), c.rangeMax(t.Args[1])
+		if a < b {
+			return a
+		}
+		return b
+	case "zext":
+		return c.rangeMax(t.Args[0])
+	case "extract":
+		if t.P1 == 0 {
+			m := c.rangeMax(t.Args[0])
+			if m < mask(t.W) {
+				return m
+			}
+		}
+	case "table":
+		tbl := c.tables[t.P0]
+		m := c.rangeMax(t.Args[0])
+		mx := uint64(0)
+		for i := uint64(0); i <= m && i < 256; i++ {
+			v := uint64(0)
+			if int(i) < len(tbl) {
+				v = uint64(tbl[i])
+			}
+			if v > mx {
+				mx = v
+			}
+		}
+		return mx
+	case "ite":
+		a, b := c.rangeMax(t.Args[1]), c.rangeMax(t.Args[2])
+		if a > b {
+			return a
+		}
+		return b
+	}
+	return mask(t.W)
+}
+
+// tableCmp decides a comparison between a table lookup and a constant when it has the same
+// truth value on the whole feasible index range.
+func (c *TermCtx) tableCmp(op string, a, b *Term) *Term {
+	flip := map[string]string{"bvult": "bvugt", "bvule": "bvuge", "bvugt": "bvult", "bvuge": "bvule", "=": "="}
+	if a.IsConst() && b.Op == "table" {
+		a, b = b, a
+		f, ok := flip[op]
+		if !ok {
+			return nil
+		}
+		op = f
+	}
+	if a.Op != "table" || !b.IsConst() {
+		return nil
+	}
+	if _, ok := flip[op]; !ok {
+		return nil
+	}
+	tbl := c.tables[a.P0]
+	m := c.rangeMax(a.Args[0])
+	if m > 255 {
+		m = 255
+	}
+	var first bool
+	for i := uint64(0); i <= m; i++ {
+		v := uint64(0)
+		if int(i) < len(tbl) {
+			v = uint64(tbl[i])
+		}
+		var r bool
+		switch op {
+		case "bvult":
+			r = v < b.CU
+		case "bvule":
+			r = v <= b.CU
+		case "bvugt":
+			r = v > b.CU
+		case "bvuge":
+			r = v >= b.CU
+		case "=":
+			r = v == b.CU
+		}
+		if i == 0 {
+			first = r
+		} else if r != first {
+			return nil
+		}
+	}
+	return c.BoolConst(first)
 }
 
 // ---- Int constructors ----
